@@ -740,6 +740,8 @@ class ConstructInterface(Interface):
             return [(st, VStr(t.app('str_' + name, t.STR, recv.t)))]
         if name == 'startswith' and len(args) == 1 and isinstance(args[0], VStr) and args[0].t is not None:
             return [(st, VBool(t.str_prefixof(args[0].t, recv.t)))]
+        if name == 'endswith' and len(args) == 1 and isinstance(args[0], VStr) and args[0].t is not None:
+            return [(st, VBool(t.app('str.suffixof', t.BOOL, args[0].t, recv.t)))]
         if name == 'replace' and len(args) == 2:
             return [(st, VStr(fresh('replaced', t.STR)))]
         return None
